@@ -89,6 +89,8 @@ def _build_one(exv, mlname, opsfile, exe):
 
 def build_driver():
     """hand-model driver (must build) and the generated-model driver (best effort)."""
+    vos = [f[:-2] + ".vo" for f in coq_files() if not f.startswith("props/")]
+    make(vos, keep_going=True)
     ok, log = _build_one("Extract.v", "model", "ops_hand.ml.in", "driver")
     okg, logg = _build_one("ExtractGen.v", "modelgen", "ops_gen.ml.in", "driver_gen")
     return ok, log + ("" if okg else "\n[driver_gen unavailable: " + logg[-600:] + "]")
@@ -231,7 +233,10 @@ def dec(s):
     s = s.strip()
     if s.startswith("ERR"):
         return ("ERR", s)
-    return json.loads(re.sub(r"(?<![\w\"])(-?[0-9a-f]+/[0-9a-f]+)", r'"\1"', s)) if "/" in s else json.loads(s)
+    try:
+        return json.loads(s)
+    except ValueError:
+        return json.loads(re.sub(r"(?<![\w\"])(-?[0-9a-f]+/[0-9a-f]+)", r'"\1"', s))
 
 
 def run_model(lines, timeout=1800, chunks=16, gen=False):
